@@ -497,9 +497,9 @@ func runPromLabel(c *core.Ctx) {
 
 var (
 	reGetReqID1 = regexp.MustCompile(`call:[^(]*/middleware/prometheus\.getRequestID\(`)
-	reGetReqID2 = regexp.MustCompile(`call:invoke:context\.Context\.Value\(([^,()]*),global:requestIDKeyInstance\)`)
+	reGetReqID2 = regexp.MustCompile(`call:invoke:context\.Context\.Value\(([^,()]*),(?:global:requestIDKeyInstance|zero:requestIDKey)\)`)
 	reSetReqID1 = regexp.MustCompile(`call:[^(]*/middleware/prometheus\.setRequestID\(`)
-	reSetReqID2 = regexp.MustCompile(`call:context\.WithValue\(([^,()]*),global:requestIDKeyInstance,`)
+	reSetReqID2 = regexp.MustCompile(`call:context\.WithValue\(([^,()]*),(?:global:requestIDKeyInstance|zero:requestIDKey),`)
 )
 
 // promPath: access path with the two spellings of "the request id carried by
